@@ -108,6 +108,17 @@ def _lossless_spec(spec):
     return bool(mm and int(mm.group(1)) >= 17)
 
 
+def _tbl(units, reg):
+    """the unit table of a registry object (the first registry of an analysis uses the table the rule holds)"""
+    return getattr(reg, 'tbl', None) or units
+
+
+def _same_registry(ip2, a, b, node):
+    ra, rb = getattr(a, 'reg', None), getattr(b, 'reg', None)
+    if ra is not None and rb is not None and ra is not rb:
+        raise Raised('ValueError', 'Cannot operate with Quantity and Quantity of different registries.', ip2.loc(node))
+
+
 def _q(m, u, ityp=False):
     """ityp: the magnitude may still have the (possibly integer) dtype of the caller's array -- it has only been
     multiplied by integer-valued magnitudes so far (numpy in-place true division / float scaling of such an array raises)"""
@@ -125,8 +136,14 @@ def _ityp(v):
 
 
 def install(ip, units):
+    units0 = units
+    made = []
+
     def ureg_new(ip2, args, kwargs, node):
-        return Obj('ureg', {})
+        r = Obj('ureg', {})
+        r.tbl = units if not made else Units()       # every registry has its own definitions
+        made.append(r)
+        return r
     ip.lib_overrides['pint.UnitRegistry'] = ureg_new
 
     def fmt(ip2, s, args, kwargs, node):
@@ -169,9 +186,10 @@ def install(ip, units):
         if not (isinstance(unit, Const) and isinstance(unit.v, str)):
             raise Unsupported('unit of a characteristic quantity is not a string literal', node)
         vt, _ = ip2.term_of(val, node)
-        fac, dims = units.to_base(units.parse(unit.v))
+        tb = _tbl(units, o)
+        fac, dims = tb.to_base(tb.parse(unit.v))
         for nm in (m.group(1), m.group(4)):
-            units.custom[nm] = (vt * fac, dims)
+            tb.custom[nm] = (vt * fac, dims)
         ip2.notes.append(('define', {'names': (m.group(1), m.group(4)), 'unit': unit.v, 'loc': ip2.loc(node)}))
         return NONE
     ip.natives[('ureg', 'define')] = define
@@ -182,7 +200,9 @@ def install(ip, units):
             raise Unsupported('Quantity unit is not a string literal', node)
         vt, _ = ip2.term_of(v, node)
         ip2.notes.append(('unit-literal', {'s': unit.v, 'loc': ip2.loc(node), 'use': 'Quantity'}))
-        q = _q(vt, units.parse(unit.v), _ityp(v))
+        q = _q(vt, _tbl(units, o).parse(unit.v), _ityp(v))
+        q.reg = o
+        q.arrayish = getattr(v, 'kind', 'scalar') == 'array'
         if getattr(v, 'maybe_int', False):
             q.attrs['wraps_argument'] = True     # pint wraps the caller's array without copying it
         if isinstance(v, (Arr, View)):
@@ -196,20 +216,29 @@ def install(ip, units):
         if not (isinstance(unit, Const) and isinstance(unit.v, str)):
             raise Unsupported('registry called with a non-literal', node)
         ip2.notes.append(('unit-literal', {'s': unit.v, 'loc': ip2.loc(node), 'use': 'call'}))
-        return _q(N.NF.const(1), units.parse(unit.v), True)
+        q = _q(N.NF.const(1), _tbl(units, o).parse(unit.v), True)
+        q.reg = o
+        return q
     ip.natives[('ureg', '__call__')] = call
 
     def mul(sign):
         def f(ip2, o, args, kwargs, node):
             other = args[0]
             if isinstance(other, Obj) and other.cls == 'Quantity':
+                _same_registry(ip2, o, other, node)
                 u = dict(o.attrs['u'])
                 for k, v in other.attrs['u'].items():
                     u[k] = u.get(k, F(0)) + sign * v
                 m = o.attrs['m'] * other.attrs['m'] if sign > 0 else o.attrs['m'] / other.attrs['m']
-                return _q(m, u, sign > 0 and _ityp(o) and _ityp(other))
-            t, _ = ip2.term_of(other, node)
-            return _q(o.attrs['m'] * t if sign > 0 else o.attrs['m'] / t, o.attrs['u'], sign > 0 and _ityp(o) and _ityp(other))
+                r = _q(m, u, sign > 0 and _ityp(o) and _ityp(other))
+                r.reg = getattr(o, 'reg', None) or getattr(other, 'reg', None)
+                r.arrayish = getattr(o, 'arrayish', False) or getattr(other, 'arrayish', False)
+                return r
+            t, k_ = ip2.term_of(other, node)
+            r = _q(o.attrs['m'] * t if sign > 0 else o.attrs['m'] / t, o.attrs['u'], sign > 0 and _ityp(o) and _ityp(other))
+            r.reg = getattr(o, 'reg', None)
+            r.arrayish = getattr(o, 'arrayish', False) or k_ == 'array'
+            return r
         return f
     ip.natives[('Quantity', '__mul__')] = mul(+1)
     ip.natives[('Quantity', '__rmul__')] = mul(+1)
@@ -233,6 +262,7 @@ def install(ip, units):
     ip.natives[('Quantity', '__itruediv__')] = imul(-1)
 
     def check(ip2, o, args, kwargs, node):
+        units = _tbl(units0, getattr(o, 'reg', None))
         d = args[0]
         if not (isinstance(d, Const) and isinstance(d.v, str)):
             raise Unsupported('.check() with a non-literal dimension', node)
@@ -245,6 +275,7 @@ def install(ip, units):
     ip.natives[('Quantity', 'check')] = check
 
     def q_getattr(ip2, o, args, kwargs, node):
+        units = _tbl(units0, getattr(o, 'reg', None))
         nm = args[0].v
         if nm in ('magnitude', 'm'):
             r = Num(o.attrs['m'], 'scalar')
@@ -258,8 +289,10 @@ def install(ip, units):
     ip.natives[('Quantity', '__getattr__')] = q_getattr
 
     def rdiv(ip2, o, args, kwargs, node):
-        t, _ = ip2.term_of(args[0], node)
-        return _q(t / o.attrs['m'], {k: -v for k, v in o.attrs['u'].items()})
+        t, k_ = ip2.term_of(args[0], node)
+        r = _q(t / o.attrs['m'], {k: -v for k, v in o.attrs['u'].items()})
+        r.arrayish = getattr(o, 'arrayish', False) or k_ == 'array'
+        return r
     ip.natives[('Quantity', '__rtruediv__')] = rdiv
 
     def power(ip2, o, args, kwargs, node):
@@ -271,6 +304,7 @@ def install(ip, units):
     ip.natives[('Quantity', '__pow__')] = power
 
     def to(ip2, o, args, kwargs, node):
+        units = _tbl(units0, getattr(o, 'reg', None))
         tgt = args[0]
         if not (isinstance(tgt, Const) and isinstance(tgt.v, str)):
             raise Unsupported('.to() with a non-literal target', node)
@@ -309,6 +343,19 @@ def install(ip, units):
         return NONE
     ip.natives[('Quantity', 'ito')] = ito
     ip.natives[('Quantity', 'to_base_units')] = lambda ip2, o, a, k, n: o
+
+    def keep_registry(f):
+        def g(ip2, o, args, kwargs, node):
+            r = f(ip2, o, args, kwargs, node)
+            if isinstance(r, Obj) and r.cls == 'Quantity' and getattr(r, 'reg', None) is None:
+                r.reg = getattr(o, 'reg', None)
+            if isinstance(r, Obj) and r.cls == 'Quantity' and r is not o and not hasattr(r, 'arrayish'):
+                r.arrayish = getattr(o, 'arrayish', False)
+            return r
+        return g
+    for key_ in list(ip.natives):
+        if key_[0] == 'Quantity':
+            ip.natives[key_] = keep_registry(ip.natives[key_])
 
 
 CHAR_DEFAULTS = {'dc_unit': 'nanometer', 'mc_unit': 'gram/mole', 'ec_unit': 'kilojoule/mole'}
@@ -379,8 +426,32 @@ def rule_conversions(ctx, rule='R17.d'):
                 uncond_ = [w_ for d_, i_, w_ in worlds_ if i_ is None and not d_]
                 if uncond_:
                     raise uncond_[0]
-                if len(normal_) != 1:
-                    raise Unsupported('%d normally returning paths depend on the value of the argument' % len(normal_))
+                if not normal_:
+                    raise Unsupported('no normally returning path')
+                # several normally returning paths that differ in a condition on the argument's value (`if not diameter:`):
+                # each of them must give the textbook magnitude for the arguments it is taken for.  The path that takes no
+                # equality for granted is examined in full; on the others the decided equalities are substituted
+                extra_bad = []
+                if len(normal_) > 1:
+                    unit_x, want_x = _expected(meth, ec_unit)
+                    generic_ = [x for x in normal_ if not P.equalities(x[0])]
+                    for d_, i_, w2_ in normal_:
+                        eqs_ = P.equalities(d_)
+                        r2_ = w2_['res']
+                        if not eqs_ or not (isinstance(r2_, Obj) and r2_.cls == 'Quantity'):
+                            continue
+                        g2_, w3_ = P.subs(r2_.attrs['m'], eqs_), P.subs(want_x, eqs_)
+                        if P.compare(g2_, w3_)[0]:
+                            extra_bad.append('for %s the magnitude is %s, the textbook value is %s' % (
+                                ', '.join('%s = %s' % (k__, N.show(v__)) for k__, v__ in sorted(eqs_.items())), P.show(g2_)[:80],
+                                P.show(w3_)[:80]))
+                    if len(generic_) != 1:
+                        raise Unsupported('%d normally returning paths depend on the value of the argument' % len(normal_))
+                    normal_ = generic_
+                if extra_bad:
+                    n += 1
+                    ctx.violation(rule, construct, 'formula-on-special-value:' + tag, '%s: %s' % (tag, '; '.join(extra_bad[:2])), m.loc())
+                    continue
                 _, ip, w_ = normal_[0]
                 units, o, e0, res = w_['units'], w_['o'], w_['e0'], w_['res']
             except Raised as e:
@@ -400,7 +471,39 @@ def rule_conversions(ctx, rule='R17.d'):
                 aargs = [Num(N.sym('x'), 'array')] + ([Num(N.sym('diam'))] if meth == 'toVolumeFraction' else [])
                 for a_ in aargs:
                     a_.maybe_int = True
-                ipa.call(ipa.find_method(oa, meth), aargs, {})
+
+                def run_array(preset, meth=meth, ec_unit=ec_unit):
+                    ipb, unitsb, ob = make_converter(ctx.prog, ec_unit)
+                    ipb.preset = list(preset)
+                    ipb.declare('x', 'curve')
+                    ipb.declare('diam')
+                    bargs = [Num(N.sym('x'), 'array')] + ([Num(N.sym('diam'))] if meth == 'toVolumeFraction' else [])
+                    for a_ in bargs:
+                        a_.maybe_int = True
+                    return ipb, ipb.call(ipb.find_method(ob, meth), bargs, {})
+                collapsed = []
+                for dec_b, ipb, rb in explore(run_array, keep_raised=True):
+                    if ipb is None:
+                        if not dec_b:
+                            raise rb          # raises for every array argument
+                        conds_ = getattr(rb, 'decisions', [])
+                        if conds_ and all('len(' in c_.show() for c_, v_, _ in conds_):
+                            # the refusal depends on the SHAPE of the array only (its number of elements), not on its values
+                            collapsed.append('raises %s when %s' % (rb.exc, ', '.join('%s is %s' % (c_.show(), v_) for c_, v_, _ in conds_)))
+                        continue              # refusal of some arrays only (a condition on the data)
+                    if isinstance(rb, Obj) and rb.cls == 'Quantity' and not getattr(rb, 'arrayish', False):
+                        collapsed.append(', '.join('%s is %s' % (c_.show(), v_) for c_, v_, _ in dec_b) or 'always')
+                if collapsed:
+                    n += 1
+                    if collapsed[0].startswith('raises '):
+                        ctx.violation('R17.l', construct, 'array-shape-refused:' + tag,
+                                      '%s: an array argument %s: the conversion does not work elementwise on every array'
+                                      % (tag, collapsed[0]), m.loc())
+                        continue
+                    ctx.violation('R17.l', construct, 'array-collapses:' + tag,
+                                  '%s: for an array argument the returned magnitude is a plain number, not an array (when %s): the '
+                                  'conversion does not work elementwise on every array' % (tag, collapsed[0]), m.loc())
+                    continue
             except Raised as e_:
                 n += 1
                 ctx.violation('R17.l', construct, 'array-argument:' + tag,
@@ -464,6 +567,10 @@ def rule_call_history(ctx, rule='R17.h'):
     def run(meth, before, preset):
         ip, units, o = make_converter(ctx.prog)
         ip.preset = list(preset)
+        if before == '<fresh array>':
+            rest = args_for(ip, meth, '')[1:]
+            ip.declare('x', 'curve')
+            return ip, ip.call(ip.find_method(o, meth), [Arr(N.sym('x'), 'argument', ip)] + rest, {})
         if before == '<same array object>':
             # the caller converts an array, changes its contents in place (k *= 2, rho[:] = ...) and converts the very
             # same array object again: the second result is that of the current contents
@@ -508,6 +615,11 @@ def rule_call_history(ctx, rule='R17.h'):
         for before in present + ['<same array object>']:
             try:
                 ws = [norm(r) for d, i, r in explore(lambda preset: run(meth, before, preset)) if i is not None]
+                ref = fresh
+                if before.startswith('<'):
+                    # array in, array out: the reference is a fresh converter given an array once (whatever the method
+                    # decides from the data of the array, it decides the same way there)
+                    ref = [norm(r) for d, i, r in explore(lambda preset: run(meth, '<fresh array>', preset)) if i is not None]
             except (Unsupported, Raised) as e:
                 und.append('after %s: %s' % (before, e))
                 continue
@@ -515,7 +627,7 @@ def rule_call_history(ctx, rule='R17.h'):
                 if k_ == 'ALIAS':
                     bad.append(mt)
                     continue
-                if not any(k_ == k2 and u == u2 and not P.compare(mt, m2)[0] for k2, m2, u2 in fresh):
+                if not any(k_ == k2 and u == u2 and not P.compare(mt, m2)[0] for k2, m2, u2 in ref):
                     bad.append('after %s the result is %s %s where a fresh converter gives %s' % (
                         'the same array object was converted with other contents' if before.startswith('<') else
                         before + '(other arguments)', P.show(mt), dict(u), P.show(fresh[0][1]) if fresh else '?'))
@@ -588,6 +700,44 @@ def rule_registry_isolation(ctx, rule='R17.r'):
     except Raised as e:
         ctx.violation(rule, UC + '.__init__', 'second-instance', 'constructing a second converter raises %s: %s' % (e.exc, e.msg), mi.loc())
         return
+    # two converters for the SAME reduced unit system (a re-run notebook cell, a helper that builds its own): after the first
+    # one was used, every conversion on the second returns what a fresh converter returns (nothing belonging to the first
+    # one's registry is handed to the second: pint refuses to combine quantities of different registries)
+    same_bad, same_und = [], []
+    for meth in [m_ for m_ in METHODS if cls.find_method(m_) is not None]:
+        def run_same(preset, meth=meth):
+            ip2 = Interp(ctx.prog)
+            ip2.preset = list(preset)
+            install(ip2, Units())
+            cs = [ip2.construct(cls, [], {p: Num(ip2.declare(p)) for p in ('dc', 'mc', 'ec')}) for _ in range(2)]
+            out = []
+            for c_ in cs:
+                a_ = [Num(ip2.declare('x'))] + ([Num(ip2.declare('diam'))] if meth == 'toVolumeFraction' else [])
+                out.append(ip2.call(ip2.find_method(c_, meth), a_, {}))
+            return ip2, out
+        try:
+            for dec_, ip2, out in explore(run_same, keep_raised=True):
+                if ip2 is None:
+                    same_bad.append('%s on a second converter built with the same arguments raises %s (%s) after the first one was used'
+                                    % (meth, out.exc, (out.msg or '')[:80]))
+                    continue
+                a_, b_ = out
+                if not (isinstance(a_, Obj) and isinstance(b_, Obj) and a_.cls == b_.cls == 'Quantity'):
+                    continue
+                if P.compare(a_.attrs['m'], b_.attrs['m'])[0] or a_.attrs['u'] != b_.attrs['u']:
+                    same_bad.append('%s on a second converter built with the same arguments returns %s, the first returned %s'
+                                    % (meth, P.show(b_.attrs['m'])[:80], P.show(a_.attrs['m'])[:80]))
+                elif getattr(b_, 'reg', None) is not None and getattr(b_, 'reg', None) is getattr(a_, 'reg', None):
+                    same_bad.append('%s on the second converter returns a quantity of the FIRST converter\'s registry' % meth)
+        except Unsupported as e:
+            same_und.append('%s: %s' % (meth, e))
+    if same_bad:
+        ctx.violation(rule, UC, 'equal-converters', '; '.join(sorted(set(same_bad))[:2]), mi.loc())
+    elif same_und:
+        ctx.undecided(rule, UC, 'two converters with the same definition: ' + same_und[0], mi.loc())
+    else:
+        ctx.holds(rule, UC, 'two converters built from the same arguments convert independently (every method, the second after the '
+                  'first)', mi.loc(), key='equal-converters')
     regs = [[k for k, v in o.attrs.items() if isinstance(v, Obj) and v.cls == 'ureg'] for o in objs]
     shared = [k for k in regs[0] if k in regs[1] and objs[0].attrs[k] is objs[1].attrs[k]]
     if not regs[0]:
